@@ -12,6 +12,7 @@ RULE = ('one real ECU; a generated history of up to 12 add_timer / remove_timer 
         'periodic, duplicate registrations of one callback, callbacks removing themselves) issued from the application context or from inside a timer callback, '
         'with idle gaps from 0 to several periods and injected frames for the subscribers; each registration carries a unique cookie so every call is attributed; '
         'a timer model gives the allowed firing windows. non-trivial = at least one timer fired; distinct = distinct scenario JSON')
+FAULT_COUNTERS = {'operations issued from inside a timer callback': 'ops_in_timer_ctx', 'callbacks removing themselves': 'self_removals', 'expiries in the same pass': 'same_pass_expiries'}
 REQUIRED_PROBES = ['timer_calls', 'oneshots', 'periodics', 'duplicates', 'ops_in_timer_ctx', 'self_removals', 'removes', 'same_pass_expiries', 'subscriber_calls']
 PERIODS_MS = [1, 2, 5, 10, 10, 20, 50, 100, 250, 500, 1000, 3000]
 GAPS_MS = [0, 0, 0, 1, 5, 10, 10, 20, 100, 600, 2500]
